@@ -19,6 +19,7 @@ func init() {
 			"R3": "no lost update between additive top-ups and an absolute settlement write",
 			"R4": "start stack = PlayerStates[k].Bankroll for k = elem(GamePlayerIndexes), no arithmetic; bankrolls (like every other table field) survive the JSON clone made at every hand open",
 			"R5": "one top-up store per call, not in a loop",
+			"R9": "the engine's table object (which holds every bankroll) is replaced only by a freshly built table or by the open step's clone made in the same step (shared with C12.R4): a copy taken earlier and installed later discards the chips credited in between",
 			"R8": "a refused membership operation leaves no chips behind: no engine membership operation reaches an error exit after it added player records or changed a bankroll (all-or-nothing, as C03.R3, restricted to what holds chips)",
 			"R7": "every exported engine operation that writes the bankroll of an existing player holds the engine mutex from entry (the hand opening replaces the table by a clone under that mutex)",
 			"R6": "departures only drop: the leave computation stores to no TablePlayerState field; no append onto a truncated re-slice of a list the function did not allocate (in-place filtering of the live player list); after a departure during a hand the hand's index list is re-mapped through id → position in the NEW player list (as C02.R4), so results keep being credited to their owners",
@@ -126,6 +127,9 @@ func settlePair(player, r *Sym) string {
 func checkC01(c *Ctx) {
 	p := c.P
 	checkCloneCompleteness(c, "R4")
+	// R9: the object that holds the bankrolls is replaced only by a new table or by the open step's own clone
+	// (shared with C12.R4): any other copy put in its place drops the re-buys / add-ons / buy-ins credited since
+	checkTablePointerWriters(c, "R9")
 	checkPlayerRecordWritersLocked(c, "R7", "Bankroll", "the bankroll")
 	checkErrorPurity(c, "R8", recordWatch("chips", []string{"PlayerStates"}, true), "player records / a bankroll", 2)
 	var writers []bankrollWriter
